@@ -17,44 +17,8 @@ SCALARS = [None, True, False, 0, 1, 3, -1, 3.0, 12345.0, -2.0, 0.5, 1.5, 2.5, 1e
            '3', '1.5', ' 2 ', 'abc', '', 'TRUE', '#N/A', '#VALUE!', '#DIV/0!', '#EMPTY!', '1e2']
 
 
-# Predicates for whole input classes with one cause.  They are inert until the coordinator adds an
-# entry with the same id to known_findings.json.  Each is keyed on the oracle clause that failed
+# Predicates for whole input classes with one cause (ids of known_findings.json).  Each is keyed on the oracle clause that failed
 # (case['oracle']) AND the input class, so other clauses on the same inputs still alarm.
-def _num(v):
-    return isinstance(v, (int, float)) and not isinstance(v, bool)
-
-
-@known_predicate('C20-find-start-below-1')
-def _kp_find_start(case):
-    return case['call'] == 'find' and case.get('oracle') == 'find-first' \
-        and len(case['args']) == 3 and _num(case['args'][2]) and case['args'][2] < 1
-
-
-@known_predicate('C20-find-fractional-start-raises')
-def _kp_find_fraction(case):
-    if case['call'] != 'find' or case.get('oracle') != 'raises-TypeError' or len(case['args']) != 3:
-        return False
-    try:
-        v = float(case['args'][2])
-    except (TypeError, ValueError):
-        return False
-    return isinstance(case['args'][2], (float, str)) and not isinstance(case['args'][2], bool) \
-        and (v != int(v) or isinstance(case['args'][2], str))
-
-
-@known_predicate('C20-trim-ends')
-def _kp_trim_ends(case):
-    s = case['args'][0]
-    return case['call'] == 'trim' and case.get('oracle') == 'trim-ends' and isinstance(s, str) \
-        and (s.startswith(' ') or s.endswith(' '))
-
-
-@known_predicate('C20-right-fractional-count')
-def _kp_right_fraction(case):
-    return case['call'] == 'right' and case.get('oracle') == 'slice-chars' and len(case['args']) == 2 \
-        and isinstance(case['args'][1], float) and 0 < case['args'][1] < 1
-
-
 @known_predicate('C20-text-half-even')
 def _kp_text_half_even(case):
     return case['call'] == 'text' and case.get('oracle') == 'text-half-even'
@@ -99,8 +63,16 @@ def occurrences(s, old):
     return out
 
 
+ADVISORY = ['Refuted/C20_text_rounding.vo']     # witnesses of the known findings; never an alarm
+
+
 def run(ctx):
     ensure_impl_on_path()
+    from harness import common
+    with common.BuildLock():
+        ok, _log = common.make(ADVISORY)
+    ctx.extra['refuted_witnesses'] = {t: ('compiles' if ok else 'does not compile (advisory)')
+                                      for t in ADVISORY}
     from pycel.lib import text as T
     from pycel.lib.function_helpers import apply_meta
     from pycel.excelutil import build_operator_operand_fixup
@@ -143,6 +115,14 @@ def run(ctx):
             calls.append(('find', (f, w)))
             for st in (POS if len(w) <= 3 or thorough else (-1, 0, 1, 2, 3, 5, 9)):
                 calls.append(('find', (f, w, st)))
+    # ---- fractional starts / counts
+    for w in S3 + LONG[:20]:
+        for f in (S2 if len(w) <= 3 else [w[1:3], 'zz']):
+            for st in (-0.5, 0.5, 1.5, 2.5, 3.75):
+                calls.append(('find', (f, w, st)))
+        for k in (0.25, 0.5, 1.5, 2.5, -0.5):
+            calls.append(('right', (w, k)))
+            calls.append(('left', (w, k)))
     # ---- substitute
     for t in SM + LONG[:ctx.n(30, 300)]:
         pats = S2 if len(t) <= 4 else [t[i:i + k] for i in range(len(t)) for k in (1, 2)][:10] + ['', 'zz']
@@ -277,9 +257,9 @@ def oracle(ctx, F, amp, f, a, i):
         if r != want:
             ctx.violation(dict(case, oracle='replace-splice'), "REPLACE(s,n,k,t) <> LEFT(s,n-1) & t & MID(s,n+k,LEN(s))", impl=r, expected=want)
     elif f == 'find' and texts and isinstance(a[0], str) and isinstance(a[1], str) \
-            and (len(a) == 2 or (isinstance(a[2], int) and not isinstance(a[2], bool))):
+            and (len(a) == 2 or (isinstance(a[2], (int, float)) and not isinstance(a[2], bool))):
         p, s = a[0], a[1]
-        st = a[2] if len(a) == 3 else 1
+        st = int(a[2]) if len(a) == 3 else 1      # a fractional start behaves as its truncation
         want = ERR
         if st >= 1:
             for q in range(st, len(s) - len(p) + 2):
